@@ -79,8 +79,23 @@ def build(kind, log, refs=None, coroutine=None):
         def mw_tag(request, context, handler):
             r = handler(request, context)
             return r if (isinstance(r, _U) or r.is_error) else _R(id=r.id, result={'tagged': r.result})
+    import json as _json
+
+    class BudgetDecoder(_json.JSONDecoder):
+        """a decoder that keeps per-document state on itself (a budget of 40 objects per document, counted from construction):
+        the dispatcher is given the CLASS, every document is decoded by an instance of its own"""
+        def __init__(self, *a, **kw):
+            self.objects = 0
+            kw['object_hook'] = self._count
+            super().__init__(*a, **kw)
+
+        def _count(self, obj):
+            self.objects += 1
+            if self.objects > 40:
+                raise ValueError('document too complex')
+            return obj
     s = Sys(kind, methods.STD_TABLE, coroutine_methods=coroutine, error_handlers={None: [h_generic], -32000: [h_server]},
-            middlewares=[mw_pass, mw_tag])
+            middlewares=[mw_pass, mw_tag], json_decoder=BudgetDecoder)
     d = s.d
     log = s.log
     js = vjs.JsonSchemaValidator()
@@ -670,9 +685,34 @@ def gen_cases(ctx):
             yield dict(part='c', requests=tri, budget=1, shard=(k, 8, 1))
 
 
+def process_state():
+    """interpreter-wide settings a dispatch has no business changing"""
+    import decimal
+    import sys
+    return dict(int_max_str_digits=sys.get_int_max_str_digits(), recursionlimit=sys.getrecursionlimit(),
+                decimal_prec=decimal.getcontext().prec, switchinterval=sys.getswitchinterval(),
+                default_content_type=pjrpc.common.DEFAULT_CONTENT_TYPE, request_types=tuple(pjrpc.common.REQUEST_CONTENT_TYPES))
+
+
 def run_case(case, rec):
     from mc.core import Recorder
     r = Recorder()
+    before = process_state()
+    try:
+        return run_case_inner(case, rec, r)
+    finally:
+        after = process_state()
+        if after != before:
+            changed = {k: (before[k], after[k]) for k in before if before[k] != after[k]}
+            rec.violation('C13:process-wide state left changed after the dispatches returned (%s)' % ','.join(sorted(changed)),
+                          {k: v for k, v in case.items() if k != '_d'}, expected=before, observed=after)
+            # put it back so that the following cases are judged on their own
+            import sys
+            sys.set_int_max_str_digits(before['int_max_str_digits'])
+            sys.setrecursionlimit(before['recursionlimit'])
+
+
+def run_case_inner(case, rec, r):
     runner = {'a': run_history, 'b': run_retention, 'cancel': run_cancel, 'http': run_http_retention, 'churn': run_churn,
               'overlap': run_overlap}.get(case['part'], run_threads_case)
     try:
